@@ -197,6 +197,67 @@ def build_wrap_runner(build_dir):
     return out
 
 
+def kani_slots(build_dir, timeout=900):
+    """E2: runs the Kani harnesses of /verif/kani against the same source state; result cached next to the MIR.
+    -> dict(status='ok'|'inconclusive', main='SUCCESSFUL'|'FAILED'|..., twin=..., cover=..., seconds=...)"""
+    import json
+    out = os.path.join(build_dir, 'kani_slots.json')
+    if os.path.exists(out):
+        return json.load(open(out))
+    with open(os.path.join(CACHE, 'lock'), 'w') as lk:
+        fcntl.flock(lk, fcntl.LOCK_EX)
+        if os.path.exists(out):
+            return json.load(open(out))
+        res = {'status': 'inconclusive', 'why': ''}
+        t0 = time.time()
+        if os.path.basename(build_dir) != 'b-' + source_hash():
+            res['why'] = 'source tree changed while a check was running'
+            return res
+        root = os.path.join(SCRATCH, 'kani')
+        try:
+            _copy_repo(root)
+            kh = os.path.join(root, 'kh')
+            shutil.copytree(os.path.join(VERIF, 'kani', 'src'), os.path.join(kh, 'src'))
+            shutil.copy(os.path.join(VERIF, 'kani', 'Cargo.toml.in'), os.path.join(kh, 'Cargo.toml'))
+            shutil.copy(os.path.join(root, 'Cargo.lock'), os.path.join(kh, 'Cargo.lock'))
+            os.makedirs(os.path.join(kh, '.cargo'))
+            open(os.path.join(kh, '.cargo', 'config.toml'), 'w').write('[net]\noffline = true\n')
+            env = dict(ENV, CARGO_TARGET_DIR=os.path.join(CACHE, 'target-kani'))
+            p = subprocess.run(['cargo', 'update', '-p', 'proc-macro2', '--precise', '1.0.107', '--offline'], cwd=kh, env=env,
+                               stdout=subprocess.PIPE, stderr=subprocess.PIPE, text=True)
+            try:
+                p = subprocess.run(['cargo', 'kani', '--output-format', 'terse'], cwd=kh, env=env, stdout=subprocess.PIPE,
+                                   stderr=subprocess.STDOUT, text=True, timeout=timeout)
+            except subprocess.TimeoutExpired:
+                res['why'] = 'Kani timed out after %ds' % timeout
+                return res
+            txt = p.stdout
+            cur = None
+            verdicts = {}
+            for line in txt.split('\n'):
+                m = re.match(r'^Checking harness (\S+)\.\.\.', line)
+                if m:
+                    cur = m.group(1)
+                m = re.match(r'^VERIFICATION:- (\w+)', line)
+                if m and cur:
+                    verdicts[cur] = m.group(1)
+                if 'cover properties satisfied' in line and cur:
+                    verdicts[cur + ':cover'] = line.strip(' *')
+            res.update({'main': verdicts.get('proofs::slots_match_layout_rule'), 'twin': verdicts.get('proofs::vacuity_twin_must_fail'),
+                        'cover': verdicts.get('proofs::slots_match_layout_rule:cover'), 'seconds': round(time.time() - t0, 1),
+                        'kani': 'cargo kani 0.68 / CBMC, unwind 7, vector length <= 5, sizes 8k (k in 1..32)'})
+            if res['main'] in ('SUCCESSFUL', 'FAILED') and res['twin'] in ('SUCCESSFUL', 'FAILED') and 'Status: ERROR' not in txt:
+                res['status'] = 'ok'
+            else:
+                res['why'] = 'no verdict: ' + txt[-600:]
+            json.dump(res, open(out, 'w'))
+        except Exception as ex:
+            res['why'] = 'Kani run failed: %r' % (ex,)
+        finally:
+            shutil.rmtree(SCRATCH, ignore_errors=True)
+        return res
+
+
 def solang_pt_path():
     """pt.rs of the solang-parser version named in /repo/Cargo.lock"""
     lock = open(os.path.join(REPO, 'Cargo.lock')).read()
